@@ -146,7 +146,7 @@ def run(chk, replay=None):
     try:
         tdir = build("tsan", targets=["conc_drive"])
         env = dict(os.environ, TSAN_OPTIONS="halt_on_error=0 report_signal_unsafe=0 exitcode=0", CONC_NOEVENTS="1")
-        raw, err, stderr = run_driver(tdir, "warm", 8, 200 if quick else 1000, chk.seed, "tsan", env=env, timeout=1800)
+        raw, err, stderr = run_driver(tdir, "warm", 8, 200 if quick else 1000, chk.seed, "tsan", env=env, timeout=420 if quick else 900)
         races = re.findall(r"WARNING: ThreadSanitizer: data race.*?(?=\n\n|\Z)", stderr, flags=re.S)
         chk.cov["tsan_observer"] = {"ran": raw is not None, "race_reports": len(races)}
         chk.case(("tsan", "warm", 8))
@@ -156,7 +156,7 @@ def run(chk, replay=None):
             chk.violation("ThreadSanitizer observed a data race during a warm run", {"report": rep[:3000]})
         # the same under the portable dispatch
         env1 = dict(env, CONC_CPU_MASK="15")
-        raw1, err1, stderr1 = run_driver(tdir, "warm", 8, 150 if quick else 800, chk.seed + 3, "tsan-generic", env=env1, timeout=1800)
+        raw1, err1, stderr1 = run_driver(tdir, "warm", 8, 150 if quick else 800, chk.seed + 3, "tsan-generic", env=env1, timeout=420 if quick else 900)
         races1 = re.findall(r"WARNING: ThreadSanitizer: data race.*?(?=\n\n|\Z)", stderr1, flags=re.S)
         chk.cov["tsan_observer_portable_kernels"] = {"ran": raw1 is not None, "race_reports": len(races1)}
         chk.case(("tsan", "warm-portable", 8))
@@ -167,7 +167,7 @@ def run(chk, replay=None):
         # a fresh process in which the threads run module-level and table operations only (first use included, no *_simple call): the
         # warm-up protocol does not apply to them, so every race report is illegal here too
         env2 = dict(env, CONC_CLASS0_ONLY="1")
-        raw2, err2, stderr2 = run_driver(tdir, "cold", 8, 120 if quick else 600, chk.seed + 5, "tsan-cold", env=env2, timeout=1800)
+        raw2, err2, stderr2 = run_driver(tdir, "cold", 8, 120 if quick else 600, chk.seed + 5, "tsan-cold", env=env2, timeout=420 if quick else 900)
         races2 = re.findall(r"WARNING: ThreadSanitizer: data race.*?(?=\n\n|\Z)", stderr2, flags=re.S)
         chk.cov["tsan_observer_cold_module_level"] = {"ran": raw2 is not None, "race_reports": len(races2)}
         chk.case(("tsan", "cold-class0", 8))
